@@ -217,6 +217,29 @@ F4 = simple_family(
     ["Period4", "OnlyDollars"])
 
 
+NumberInput = simple_family(
+    ["C19"], "NumberInput.tla", "NumberInput.cfg", {"quick": [("MaxLen = 3", "MaxLen = 4")], "thorough": [("MaxLen = 3", "MaxLen = 5")]}, "numinput",
+    ["the grammar of the property statement as written in NumberInput.tla; the first digit group may have any length (1234,567 tolerated), every group separator must be followed by exactly three digits",
+     "strings containing a space or '/' (dates are C21's) carry no verdict; strings with a leading sign that are not numbers carry no verdict (the engine may treat them as formulas)",
+     "values compared to a relative 1e-14 against the correctly rounded double of the spec's exact decimal (Rust str::parse::<f64>)",
+     "two separator classes: '.'/',' (locale en) and ','/'.' (locale de); both currency symbols $ and EUR in both",
+     "plain numbers may carry any format; percent / currency / scientific / grouped input must get a format of that kind (a scientific mantissa inside a percent or currency may show either kind)"],
+    "every string up to the stated length over the 13-character alphabet {1 2 0 , . - + e % $ EUR / space} x 2 separator classes, each typed into a fresh default-styled cell; distinct_nontrivial = distinct (kind, non-digit skeleton) classes of recognised numbers.",
+    ["LocaleSymmetry", "DigitsNonEmpty"])
+
+
+NumberFormat = simple_family(
+    ["C20"], "NumberFormat.tla", "NumberFormat.cfg",
+    {"quick": [("MaxMant = 2", "MaxMant = 3"), ("NegK = 4", "NegK = 5"), ("MaxK = 2", "MaxK = 3")],
+     "thorough": [("MaxMant = 2", "MaxMant = 4"), ("NegK = 4", "NegK = 7"), ("MaxK = 2", "MaxK = 5"), ("MantDigits = {0, 1, 4, 5, 9}", "MantDigits = {0, 1, 4, 5, 9}")]}, "numformat",
+    ["format family: integer part 0 / 00 / #,##0, 0-3 decimals, optional %, literal prefix \"x\" or suffix \" kg\", optional negative section in parentheses, and 0.00E+00; formats with # or ? placeholders in other positions only go through C11",
+     "numbers are exact decimals with at most 4 significant digits (so that text -> double -> 15-digit reduction is the identity)",
+     "no verdict when a negative number rounds to zero (-0 vs 0 is not fixed by the statement) and for a minus sign combined with a literal prefix",
+     "two separator classes (locale en and de)"],
+    "every (number, format, locale) of the enumerated pools: expected text computed by NumberFormat.tla on digit strings; compared with format_number and, for every 16th case, with the cell display; distinct_nontrivial = distinct (number, format) pairs where rounding drops digits.",
+    ["Idempotent", "WellShaped"])
+
+
 def replay_case(prop, path):
     with open(path) as f:
         payload = json.load(f)
@@ -235,4 +258,4 @@ def _wrap(cls, name):
     return (name, M)
 
 
-TABLE = {"C21": _wrap(Calendar, "calendar"), "C22": _wrap(Grid, "grid"), "C23": _wrap(Lang, "lang"), "C34": _wrap(F4, "f4")}
+TABLE = {"C21": _wrap(Calendar, "calendar"), "C22": _wrap(Grid, "grid"), "C23": _wrap(Lang, "lang"), "C34": _wrap(F4, "f4"), "C19": _wrap(NumberInput, "numinput"), "C20": _wrap(NumberFormat, "numformat")}
